@@ -23,6 +23,10 @@ type c04sCase struct {
 	How     string     // server_ctx, client_disconnect, client_cancel
 	StepsAt int
 	Choices []int
+	// Unread: messages the client has sent that no handler receive has taken when the stop happens. While one is
+	// pending the server's reader sits in the stream's packet buffer and reads nothing more - neither the cancel
+	// nor the EOF (known finding F19, same root as F5); with the exclusion on, no such message is sent.
+	Unread int
 }
 
 func genC04S(t *rapid.T) c04sCase {
@@ -36,6 +40,7 @@ func genC04S(t *rapid.T) c04sCase {
 		c.Cfg.PointLimit = 6
 	}
 	c.Choices = rapid.SliceOfN(rapid.SampledFrom(c04Kinds), 0, 40).Draw(t, "choices")
+	c.Unread = rapid.IntRange(0, 2).Draw(t, "unread")
 	return c
 }
 
@@ -47,7 +52,21 @@ func runC04S(c c04sCase) (r pbt.Result) {
 	// the handler itself only waits for its two goroutines: it ends when they have been released
 	// the client only waits for a message (its first receive flushes the invoke): nothing is left unread on the
 	// server, whose reader would otherwise sit in the packet buffer and not see the disconnect (that is F5's family)
-	rpc := sim.RPC{NoFinalClose: true, Client: sim.Prog{Steps: []sim.Step{{Op: "recv"}}},
+	unread := c.Unread
+	if unread > 0 && pbt.Excluded("F19") {
+		unread = 0
+		r.Excluded = "F19"
+	}
+	if unread > 0 {
+		// nobody on the handler side receives: the messages stay pending
+		recvs = nil
+	}
+	csteps := []sim.Step{}
+	for i := 0; i < unread; i++ {
+		csteps = append(csteps, sim.Step{Op: "send", Size: 2})
+	}
+	csteps = append(csteps, sim.Step{Op: "recv"})
+	rpc := sim.RPC{NoFinalClose: true, Client: sim.Prog{Steps: csteps},
 		Handler: sim.Prog{Steps: []sim.Step{{Op: "ret"}}}, HSubs: []sim.Prog{{Steps: c.HSends}, {Steps: recvs}}}
 	w := sim.NewWorld(c.Cfg, []sim.RPC{rpc})
 	defer w.Drain()
@@ -66,6 +85,15 @@ func runC04S(c c04sCase) (r pbt.Result) {
 	if w.HandlerStream(0) == nil {
 		fail("harness: handler did not start")
 		return
+	}
+	// the client's sends (if any) go out and reach the server before anything else happens
+	for i := 0; i < 300 && unread > 0; i++ {
+		if op := w.InCall("c0"); op["c0"] == "recv" {
+			break
+		}
+		if _, ok := w.Step(0, sim.Filter{OnlyActors: func(n string) bool { return n == "c0" }}); !ok {
+			break
+		}
 	}
 	// the client stops reading: server->client bytes are accepted by nobody
 	pre := sim.Filter{NoS2C: true, OnlyActors: func(n string) bool { return strings.HasPrefix(n, "h0.") }}
@@ -151,6 +179,9 @@ func runC04S(c c04sCase) (r pbt.Result) {
 		return
 	}
 	r.Label("how_" + c.How)
+	if unread > 0 {
+		r.Label("client_messages_unread_at_the_stop")
+	}
 	if len(inFlight) >= 2 {
 		r.Label("handler_ops_inflight_2")
 	}
